@@ -289,7 +289,10 @@ class World:
         # registries and the process-wide numpy floating-point error state (what a fresh process-state has)
         return [sorted((k, id(v)) for k, v in TRANSFORMS.items()),
                 sorted((k, id(v)) for k, v in ENCODINGS.items()),
-                sorted(np.geterr().items())]
+                sorted(np.geterr().items()),
+                # the global random number generators: a library call must not reseed or consume them
+                hashlib.sha256(np.random.get_state()[1].tobytes()).hexdigest()[:12],
+                hashlib.sha256(repr(__import__("random").getstate()).encode()).hexdigest()[:12]]
 
     def fail(self, oracle, kind, key, detail, extra=None):
         v = Violation(oracle, kind, key, detail, extra)
@@ -1095,8 +1098,8 @@ class World:
                       f"a caller namespace changed at step {self.step} ({op['op']})", extra)
         if self.registries_fp() != self.reg_fp:
             self.fail("S", "registry-changed", "registry",
-                      f"TRANSFORMS/ENCODINGS or the process-wide numpy error state (np.geterr() = {np.geterr()}) "
-                      f"changed at step {self.step} ({op['op']})", extra)
+                      f"TRANSFORMS/ENCODINGS, the process-wide numpy error state (np.geterr() = {np.geterr()}) or the "
+                      f"state of the global random number generators changed at step {self.step} ({op['op']})", extra)
 
 
 def _points(n_events, op):
